@@ -1892,9 +1892,12 @@ mzd_t *mzd_extract_l(mzd_t *L, mzd_t const *A) {
   L = mzd_submatrix(L, A, 0, 0, k, k);
   for (rci_t i = 0; i < L->nrows - 1; i++) {
     word *row = mzd_row(L, i);
-    if (m4ri_radix - (i + 1) % m4ri_radix)
-      mzd_clear_bits(L, i, i + 1, m4ri_radix - (i + 1) % m4ri_radix);
-    for (wi_t j = (i / m4ri_radix + 1); j < L->width; j++) { row[j] = 0; }
+    /* clear the columns i+1 .. ncols-1 and nothing beyond ncols (L may be a window) */
+    rci_t const first = i + 1;
+    wi_t const fw     = first / m4ri_radix;
+    mzd_clear_bits(L, i, first, MIN(m4ri_radix - first % m4ri_radix, L->ncols - first));
+    for (wi_t j = fw + 1; j < L->width - 1; j++) { row[j] = 0; }
+    if (fw + 1 <= L->width - 1) { row[L->width - 1] &= ~L->high_bitmask; }
   }
   return L;
 }
